@@ -31,7 +31,13 @@ def allmat():
 
 
 def mat(name, created=None):
-    k = dict(allmat()[name])
+    """raw material; 'ecdh_p256_0+kdf10.9' = the same key with KDF hash 10 / KEK cipher 9 (legal, non-default parameters)"""
+    base, _, var = name.partition('+kdf')
+    k = dict(allmat()[base])
+    if var:
+        h, c = var.split('.')
+        k['kdf_hash'], k['kdf_sym'] = int(h), int(c)
+        k['name'] = name
     if created is not None:
         k['created'] = created
     return k
